@@ -98,6 +98,8 @@ def run_circ(case, ctx):
     rng, pr, s = case_rng(ctx.seed, "C19", "circ", case["i"])
     n = pr.randint(1, 3 if ctx.tier == "quick" else 4)
     gates = gen.random_gates(pr, n, pr.randint(1, 8), max_controls=3, hostile=0.15)
+    # identity-valued occurrences (angle exactly 0, as in a variational circuit at its zero starting point) are occurrences all the same
+    gates = [(nm, tg, ct, (pr.choice([0.0, 0.0, 0, -0.0]) if nm in gen.PARAM and pr.random() < 0.2 else par)) for nm, tg, ct, par in gates]
     names = {g[0] for g in gates}
     spec = gen_noise(pr, names)
     if case["i"] % 8 == 0:
